@@ -32,8 +32,18 @@ MODEL_IUPAC_COMPLEMENT = True
 MODEL_TABLE_WRONG = set("RYKMBVDHrykmbvdh")
 
 
-def rand_transcript(r, idx):
-    """one transcript with 0-6 exons and 0-4 CDS inside the exons; returns (lines, info)"""
+TN_PLAIN = {"exon": "exon", "CDS": "CDS", "UTR": "UTR"}
+# featuretype names of which one is a proper SUBSTRING of another (WormBase-style 'coding_exon' next to 'exon'; a short
+# name inside 'exon'): a featuretype argument selects the children of exactly that type
+TN_SCHEMES = [TN_PLAIN, TN_PLAIN, TN_PLAIN, {"exon": "exon", "CDS": "coding_exon", "UTR": "UTR"},
+              {"exon": "exon", "CDS": "CDS", "UTR": "ex"}, {"exon": "five_prime_UTR_exon", "CDS": "CDS", "UTR": "UTR"}]
+
+
+def rand_transcript(r, idx, tn=TN_PLAIN, gene=False):
+    """one transcript with 0-6 exons and 0-4 CDS inside the exons; returns (lines, info).  With `gene` the transcript
+    hangs under a gene line of the same extent and its exons name BOTH as Parent (Parent=t,g): each exon is then
+    related to the gene at two levels (directly, and through the transcript); `info["gene"]` is the record of that
+    gene, whose block / thick / thin children are the same features"""
     tid = "t%d" % idx
     strand = r.choice("+-")
     # now and then the transcript begins at the very first base of the sequence (chromStart 0 / thickStart 0)
@@ -53,11 +63,15 @@ def rand_transcript(r, idx):
         else:
             tend = tend + r.randrange(1, 5)
     name = r.random() < 0.7
-    attrs = [("ID", [tid])] + ([("Name", ["N" + tid])] if name else [])
+    gid = "g%d" % idx
+    attrs = [("ID", [tid])] + ([("Name", ["N" + tid])] if name else []) + ([("Parent", [gid])] if gene else [])
     score = r.choice([".", "7"])
     lines = [gen_db.gff_line("chr1", "mRNA", tstart, tend, strand, attrs, score=score)]
+    if gene:
+        lines.insert(0, gen_db.gff_line("chr1", "gene", tstart, tend, strand, [("ID", [gid])], score=score))
     for i, (a, b) in enumerate(exons):
-        lines.append(gen_db.gff_line("chr1", "exon", a, b, strand, [("ID", ["%se%d" % (tid, i)]), ("Parent", [tid])]))
+        lines.append(gen_db.gff_line("chr1", tn["exon"], a, b, strand,
+                                     [("ID", ["%se%d" % (tid, i)]), ("Parent", [tid, gid] if gene else [tid])]))
     cds = []
     if exons:
         for (a, b) in exons[r.randrange(0, len(exons)):][: r.randrange(0, 5)]:
@@ -66,22 +80,27 @@ def rand_transcript(r, idx):
             cb = b if r.random() < 0.35 else r.randrange(ca, b + 1)
             cds.append((ca, cb))
     for i, (a, b) in enumerate(cds):
-        lines.append(gen_db.gff_line("chr1", "CDS", a, b, strand, [("ID", ["%sc%d" % (tid, i)]), ("Parent", [tid])]))
+        lines.append(gen_db.gff_line("chr1", tn["CDS"], a, b, strand, [("ID", ["%sc%d" % (tid, i)]), ("Parent", [tid])]))
     utr = []
     if exons and r.random() < 0.4:
         utr = [exons[0]]
-        lines.append(gen_db.gff_line("chr1", "UTR", exons[0][0], exons[0][1], strand,
+        lines.append(gen_db.gff_line("chr1", tn["UTR"], exons[0][0], exons[0][1], strand,
                                      [("ID", ["%su" % tid]), ("Parent", [tid])]))
-    head, tail = lines[:1], lines[1:]
+    nhead = 2 if gene else 1
+    head, tail = lines[:nhead], lines[nhead:]
     r.shuffle(tail)                              # children in arbitrary file order (e.g. transcription order on '-')
     lines = head + tail
-    return lines, {"id": tid, "start": tstart, "end": tend, "strand": strand, "exons": exons, "cds": cds, "utr": utr,
-                   "name": "N" + tid if name else None, "score": score}
+    info = {"id": tid, "start": tstart, "end": tend, "strand": strand, "exons": exons, "cds": cds, "utr": utr,
+            "name": "N" + tid if name else None, "score": score, "tn": dict(tn)}
+    if gene:
+        info["gene"] = dict(info, id=gid, name=None)
+    return lines, info
 
 
 def feats_of(info, types):
     """the generator's record of the transcript's children of the given featuretypes, ascending (start, end)"""
-    table = {"exon": info["exons"], "CDS": info["cds"], "UTR": info["utr"]}
+    tn = info.get("tn", TN_PLAIN)
+    table = {tn["exon"]: info["exons"], tn["CDS"]: info["cds"], tn["UTR"]: info["utr"]}
     out = []
     for t in dict.fromkeys(types or []):
         out += [tuple(x) for x in table.get(t, [])]
@@ -179,8 +198,10 @@ def judge_bed12(ctx, res, case, db=None):
     if start_ties(feats_of(info, block)) or start_ties(feats_of(info, thick)):
         return None, None
     arg = db[info["id"]] if case["argument"] == "Feature" else info["id"]
+    # a featuretype argument naming one featuretype may be given as a plain string (the documented form)
+    asstr = lambda v: v[0] if (case.get("featuretype_as") == "str" and v and len(v) == 1) else v
     try:
-        got = db.bed12(arg, block_featuretype=block, thick_featuretype=thick, thin_featuretype=thin,
+        got = db.bed12(arg, block_featuretype=asstr(block), thick_featuretype=asstr(thick), thin_featuretype=asstr(thin),
                        name_field=case["name_field"])
         gm = "ok " + enc(got)
     except Exception as ex:
@@ -215,10 +236,13 @@ def run(ctx):
         if si < 0:
             lines, infos = directed_transcripts()
         else:
+            tn = TN_SCHEMES[si % len(TN_SCHEMES)]
             for t in range(r.randrange(1, 5)):
-                l, info = rand_transcript(r, t)
+                l, info = rand_transcript(r, t, tn=tn, gene=(si % 3 == 1 and t % 2 == 0))
                 lines += l
                 infos.append(info)
+                if "gene" in info:
+                    infos.append(info["gene"])           # bed12 of the gene: its exons are related to it at two levels
         path = dbside.write_lines(os.path.join(ctx.scratch, "c18.gff3"), lines)
         db, rep = dbside.py_create(path, dbside.Cfg())
         if db is None:
@@ -233,16 +257,24 @@ def run(ctx):
                 options += [(block, None, ["UTR"], "absent", False) for block in BLOCKS[:3]]
             else:
                 options = []
+                tn = info.get("tn", TN_PLAIN)
+                E, C, U = tn["exon"], tn["CDS"], tn["UTR"]
                 for _ in range(4):
-                    block = r.choice([["exon"], ["exon"], ["CDS"], ["exon", "CDS"]])
+                    block = r.choice([[E], [E], [C], [E, C]])
                     mode = r.choice(["thick", "thick", "thin", "both"])
-                    thick = r.choice([["CDS"], ["exon"]]) if mode in ("thick", "both") else None
-                    thin = ["UTR"] if mode in ("thin", "both") else None
+                    thick = r.choice([[C], [E]]) if mode in ("thick", "both") else None
+                    thin = [U] if mode in ("thin", "both") else None
                     options.append((block, thick, thin, r.choice(["ID", "Name", "absent"]), r.random() < 0.5))
-            for block, thick, thin, nf, as_feature in options:
+            for oi, (block, thick, thin, nf, as_feature) in enumerate(options):
                 case = {"scenario": "bed12", "input": lines, "info": info, "transcript": info["id"],
                         "block_featuretype": block, "thick_featuretype": thick, "thin_featuretype": thin, "name_field": nf,
-                        "argument": "Feature" if as_feature else "id", "no_shrink": True}
+                        "argument": "Feature" if as_feature else "id", "no_shrink": True,
+                        "featuretype_as": "str" if (oi + si) % 2 == 0 else "list"}
+                res.count("bed12_featuretype_args_as_" + case["featuretype_as"])
+                if info.get("tn", TN_PLAIN) != TN_PLAIN:
+                    res.count("bed12_featuretype_names_substrings_of_one_another")
+                if info["id"].startswith("g"):
+                    res.count("bed12_of_gene_blocks_related_at_two_levels")
                 got, gm = judge_bed12(ctx, res, case, db=db)
                 if gm is None:
                     res.count("bed12_block_features_tied_on_start(not judged)")
@@ -254,15 +286,15 @@ def run(ctx):
                     fb = feats_of(info, block)
                     spans = fb[0][0] == info["start"] and fb[-1][1] == info["end"]
                     res.count("bed12_nested_blocks_" + ("spanning" if spans else "last_block_ends_before_chromEnd"))
-                if info["start"] == 1 and info["cds"] and min(info["cds"])[0] == 1 and thick == ["CDS"]:
+                if info["start"] == 1 and info["cds"] and min(info["cds"])[0] == 1 and thick == [info.get("tn", TN_PLAIN)["CDS"]]:
                     res.count("bed12_thickStart_0")
                 cmds.append("bed12 %s %s %s %s %s ~" % (enc(info["id"]), enc_list(block), enc_list(thick or []),
                                                         enc_list(thin or []), enc(nf)))
                 exp.append(gm); tags.append(("bed12", repr({k: v for k, v in case.items() if k != "info"})))
             # to_bed12
             try:
-                got = convert.to_bed12(info["id"] if r.random() < 0.5 else db[info["id"]], db, child_type="exon",
-                                       name_field="ID")
+                got = convert.to_bed12(info["id"] if r.random() < 0.5 else db[info["id"]], db,
+                                       child_type=info.get("tn", TN_PLAIN)["exon"], name_field="ID")
                 f = got.rstrip("\n").split("\t")
                 ex = info["exons"]
                 ok = (len(f) == 12 and int(f[1]) == info["start"] - 1 and int(f[2]) == info["end"] and f[3] == info["id"]
@@ -273,7 +305,7 @@ def run(ctx):
             except Exception as exn:
                 gm = "err " + dbside.err_name(exn)
             res.evaluations += 1
-            cmds.append("tobed12 %s %s %s" % (enc(info["id"]), enc("exon"), enc("ID"))); exp.append(gm)
+            cmds.append("tobed12 %s %s %s" % (enc(info["id"]), enc(info.get("tn", TN_PLAIN)["exon"]), enc("ID"))); exp.append(gm)
             tags.append(("to_bed12", repr((lines, info["id"]))))
             # len
             ft = db[info["id"]]
